@@ -56,6 +56,7 @@ class TU:
         self.grammars = []
         self.chain_sel = set()   # registry ids selected in the chain-directed selector variant
         self.no_action = set()   # registry ids that must not carry an action with input (they contain a discard)
+        self.custom = {}         # registry id of a named rule -> text of its static error_message member
 
     def vid(self, cpp, custom=None):
         if cpp not in self.reg:
@@ -581,6 +582,12 @@ class G:
         nn = r.randint(2, 4)
         self.names = ["%s::R%d" % (self.gname, i) for i in range(nn)]
         self.named_ids = [self.add("NAMED", vid=self.tu.vid(n)) for n in self.names]
+        if self.profile == "exc":
+            # Rule::error_message: the documented way to give a rule its own message with the normal control
+            rc = random.Random("custom-%s-%d" % (self.gname, nn))
+            for n in self.names:
+                if rc.random() < 0.35:
+                    self.tu.custom[self.tu.vid(n)] = "custom message of %s" % n.split("::")[-1]
         for i in range(nn):
             cpp, cid = self.expr(3, list(range(i)))
             self.finish_named(i, cpp, cid)
@@ -660,10 +667,20 @@ class G:
 
     def single(self, cpp, cid, extra_named=()):
         """grammar consisting of one named rule whose body is the given expression"""
-        self.names = ["%s::R0" % self.gname]
-        self.named_ids = [self.add("NAMED", vid=self.tu.vid(self.names[0]))]
-        self.finish_named(0, cpp, cid)
+        self.names = self.names + ["%s::R0" % self.gname]
+        self.named_ids = self.named_ids + [self.add("NAMED", vid=self.tu.vid(self.names[-1]))]
+        self.finish_named(len(self.names) - 1, cpp, cid)
         self.close()
+
+    def named_with_message(self, x):
+        """wraps the expression into a named rule N that has a static error_message member; returns (cpp, id) of N"""
+        name = "%s::N%d" % (self.gname, len(self.names))
+        self.names.append(name)
+        nid = self.add("NAMED", vid=self.tu.vid(name))
+        self.named_ids.append(nid)
+        self.tu.custom[self.tu.vid(name)] = "custom message of %s" % name.split("::")[-1]
+        self.finish_named(len(self.names) - 1, x[0], x[1])
+        return (name, nid)
 
     def text(self):
         return "; ".join("%s : %s" % (n.split("::")[-1], b[0]) for n, b in zip(self.names, self.bodies))
@@ -684,24 +701,47 @@ CTX_TEMPLATES = [
     ("try_catch_return_false", 1, (1,), "C05"), ("try_catch_std_return_false", 1, (3,), "C05"), ("try_catch_any_return_false", 1, (7,), "C05"),
     ("try_catch_type_return_false", 1, (1,), "C05"), ("try_catch_raise_nested", 1, (1,), "C05"), ("try_catch_any_raise_nested", 1, (7,), "C05"),
     ("enable", 1, (), "C04"), ("disable", 1, (), "C04"), ("if_apply", 1, (0, 2), "C04"),
+    # the rule that is blamed carries its own error_message (must< N >, raise< N >, try_catch_*_raise_nested< N >)
+    ("must_msg", 1, (), "C05"), ("try_catch_raise_nested_msg", 1, (1,), "C05"), ("try_catch_any_raise_nested_msg", 1, (7,), "C05"),
+    ("try_catch_std_raise_nested_msg", 1, (3,), "C05"), ("if_must_msg", 2, (), "C05"),
+    # if_apply with a vetoing class action (odd id), alone and mixed with void ones in both orders
+    ("if_apply", 1, (1,), "C04"), ("if_apply", 1, (0, 1), "C04"), ("if_apply", 1, (1, 2), "C04"),
 ]
+# filler matrix (profile ctxf): the positions beside the gadget hold something other than a plain one< c >: rules that never
+# consume (eof, success, failure), a rule that always consumes (any), or the very same type as the gadget (dup: sor< X, X >,
+# seq< X, X, X >) -- legal instantiations nobody writes by hand, where a combinator that special-cases a sub-rule by its
+# type or by "cannot consume" reasoning goes wrong
+CTXF_TEMPLATES = [
+    ("seq", 2, (), "C01"), ("seq", 3, (), "C01"), ("sor", 2, (), "C01"), ("sor", 3, (), "C01"), ("star", 2, (), "C01"), ("plus", 2, (), "C01"), ("opt", 2, (), "C01"),
+    ("at", 2, (), "C01"), ("not_at", 2, (), "C01"),
+    ("if_then_else", 3, (), "C09"), ("until", 2, (), "C09"), ("list", 2, (), "C09"), ("pad", 2, (), "C09"), ("rep", 2, (2,), "C09"), ("rep_min_max", 2, (1, 2), "C09"),
+    ("partial", 2, (), "C09"), ("strict", 2, (), "C09"), ("if_must", 2, (), "C09"), ("must", 2, (), "C09"), ("separated_seq", 3, (), "C09"),
+]
+CTXF_FILLERS = ["eof", "success", "failure", "any", "dup"]
+CTXF_QUICK_GADGETS = ["consume_then_fail", "nullable"]
 CTX_GADGETS = ["consume_then_fail", "deep_consume_then_fail", "empty_success", "empty_failure", "consume", "nullable", "raising", "star_ab"]
 CTX_MODES = ["sor_first", "opt", "star", "seq_tail", "must", "top"]
 CTX_QUICK_GADGETS = ["consume_then_fail", "deep_consume_then_fail", "nullable", "raising"]
 
 
-def ctx_grammar(tu, gname, rnd, tmpl, arity, nums, prop, slot, gadget, mode=None):
+def ctx_grammar(tu, gname, rnd, tmpl, arity, nums, prop, slot, gadget, mode=None, filler="one"):
     """one grammar per (template, slot, gadget): a leading selector byte '1'..'6' picks the context that forces the
     inherited rewind mode of C (the template instance under test)"""
     g = G(tu, gname, rnd, "ctx", prop)
-    g.cell = "%s/%d:%d:%s" % (tmpl, arity, slot, gadget)
+    g.cell = "%s/%d:%d:%s" % (tmpl, arity, slot, gadget) + ("" if filler == "one" else ":" + filler)
     xs = []
     for i in range(arity):
-        if i == slot:
+        if i == slot or filler == "dup":
             xs.append(g.gadget(gadget))
-        else:
+        elif filler == "one":
             xs.append(g.atom("one", "bca"[(i + (1 if i > slot else 0)) % 3]))
-    c = g.op(tmpl, xs, nums)
+        else:
+            xs.append(g.atom(filler))
+    if tmpl.endswith("_msg"):
+        xs = [g.named_with_message(x) if (i == slot or tmpl != "if_must_msg") else x for i, x in enumerate(xs)]
+        c = g.op(tmpl[:-4], xs, nums)
+    else:
+        c = g.op(tmpl, xs, nums)
     tail = lambda: g.op("seq", [g.atom("one", "c"), g.atom("eof")])
     modes = []
     for m in CTX_MODES:
@@ -784,7 +824,7 @@ def cyc_grammar(tu, gname, rnd, tmpl, arity, nums, slot, filler, variant):
 
 def cyc_cells():
     cells = []
-    for (tmpl, arity, nums, prop) in list(CTX_TEMPLATES) + CYC_EXTRA:
+    for (tmpl, arity, nums, prop) in [t for t in CTX_TEMPLATES if not t[0].endswith("_msg")] + CYC_EXTRA:
         if tmpl in NO_ANALYZE_TRAITS:
             continue
         for slot in range(arity):
@@ -794,6 +834,16 @@ def cyc_cells():
                     if variant == "direct" and slot == 0 and (tmpl == "if_apply" or (tmpl == "until" and arity == 1)):
                         continue
                     cells.append((tmpl, arity, nums, slot, filler, variant))
+    return cells
+
+
+def ctxf_cells():
+    cells = []
+    for (tmpl, arity, nums, prop) in CTXF_TEMPLATES:
+        for filler in CTXF_FILLERS:
+            for slot in range(1 if filler == "dup" else arity):
+                for gadget in CTX_GADGETS:
+                    cells.append((tmpl, arity, nums, prop, slot, gadget, filler))
     return cells
 
 
@@ -895,7 +945,8 @@ def emit_tu(tu, seed, variants=(0, 1, 2, 3, 4, 5)):
         for n in g.names:
             out.append("  struct %s;" % n.split("::")[-1])
         for n, (cpp, _) in zip(g.names, g.bodies):
-            out.append("  struct %s : %s {};" % (n.split("::")[-1], cpp))
+            msg = tu.custom.get(tu.reg.get(n))
+            out.append("  struct %s : %s {%s};" % (n.split("::")[-1], cpp, (' static constexpr const char* error_message = "%s"; ' % cstr(msg)) if msg else ""))
         out.append("}")
     for (vid, cpp, custom) in tu.regs:
         out.append("template<> struct mon::rid< %s > { static constexpr int v = %d; };" % (cpp, vid))
@@ -903,7 +954,7 @@ def emit_tu(tu, seed, variants=(0, 1, 2, 3, 4, 5)):
     for (vid, cpp, custom) in tu.regs:
         out.append("  { %d, tao::pegtl::demangle< %s >() }," % (vid, cpp))
     out.append("};")
-    out.append("static const char* const CUSTOM[] = { %s };" % ", ".join(('"%s"' % cstr(c)) if c else "nullptr" for (_, _, c) in tu.regs))
+    out.append("static const char* const CUSTOM[] = { %s };" % ", ".join(('"%s"' % cstr(tu.custom[v])) if v in tu.custom else "nullptr" for (v, _, c) in tu.regs))
     for v in variants:
         ks = kinds_table(tu, random.Random(seed * 31 + v), v, None)
         # family B never switches the action family again (change_action< B > inside B would not compile)
@@ -949,21 +1000,21 @@ def make_tus(profile, seed, count, per_tu=10, prop=None):
     """returns list of (tu_name, source text, n grammars)"""
     rnd = random.Random("%s-%d" % (profile, seed))
     tus = []
-    if profile == "ctx":
-        cells = ctx_cells()
+    if profile in ("ctx", "ctxf"):
+        cells = ctx_cells() if profile == "ctx" else ctxf_cells()
         if count:
             # quick tier: every (template, slot) with the gadgets that matter most for rewind-mode bugs
-            cells = [c for c in cells if c[5] in CTX_QUICK_GADGETS]
+            cells = [c for c in cells if c[5] in (CTX_QUICK_GADGETS if profile == "ctx" else CTXF_QUICK_GADGETS)]
         rnd.shuffle(cells)
         gi = 0
         for i in range(0, len(cells), per_tu):
             tu = TU()
             for cellspec in cells[i:i + per_tu]:
-                tmpl, arity, nums, cprop, slot, gadget = cellspec
-                g = ctx_grammar(tu, "g%d" % gi, rnd, tmpl, arity, nums, cprop, slot, gadget)
+                tmpl, arity, nums, cprop, slot, gadget = cellspec[:6]
+                g = ctx_grammar(tu, "g%d" % gi, rnd, tmpl, arity, nums, cprop, slot, gadget, filler=(cellspec[6] if len(cellspec) > 6 else "one"))
                 tu.grammars.append(g)
                 gi += 1
-            tus.append(("ctx-%d-%d" % (seed, i // per_tu), emit_tu(tu, seed * 977 + i), len(tu.grammars)))
+            tus.append(("%s-%d-%d" % (profile, seed, i // per_tu), emit_tu(tu, seed * 977 + i), len(tu.grammars)))
         return tus
     if profile == "cyc":
         cells = cyc_cells()
